@@ -189,6 +189,16 @@ func (g *G) expr(t ty, d int) string {
 			op := []string{"&", "|", "&&", "||"}[g.pick(4)]
 			return g.paren(g.expr(tBool, d-1)) + " " + op + " " + g.paren(g.expr(tBool, d-1))
 		case 3:
+			if g.pick(3) == 0 {
+				// a negated ordering of floats is not the opposite ordering: NaN fails both
+				f := func() string {
+					if g.pick(3) == 0 {
+						return "(0.0 / 0.0)"
+					}
+					return g.paren(g.expr(tFloat, 0))
+				}
+				return "!(" + f() + " " + []string{"<", "<=", ">", ">="}[g.pick(4)] + " " + f() + ")"
+			}
 			return "!" + g.paren(g.expr(tBool, d-1))
 		case 4:
 			t2 := []ty{tStr, tArr, tFloat}[g.pick(3)]
